@@ -11,7 +11,7 @@ This module contains classes and functions to remove component tensors.
 from collections import defaultdict
 
 from ufl.algorithms.map_integrands import map_integrand_dags
-from ufl.classes import ComponentTensor, Index, MultiIndex, Zero
+from ufl.classes import ComponentTensor, Index, IndexSum, MultiIndex, Zero
 from ufl.corealg.map_dag import map_expr_dag
 from ufl.corealg.multifunction import MultiFunction
 from ufl.index_combination_utils import unique_sorted_indices
@@ -74,14 +74,49 @@ class IndexRemover(MultiFunction):
         # caches for reuse in the dispatched transformers
         self.vcaches = defaultdict(dict)
         self.rcaches = defaultdict(dict)
+        # cache of the indices bound (by IndexSum or ComponentTensor) inside an expression
+        self._bound_indices = {}
 
     expr = MultiFunction.reuse_if_untouched
+
+    def _indices_bound_inside(self, e):
+        """Return the set of indices bound by an IndexSum or ComponentTensor inside e."""
+        cache = self._bound_indices
+        stack = [e]
+        while stack:
+            node = stack[-1]
+            if node in cache:
+                stack.pop()
+                continue
+            if node._ufl_is_terminal_:
+                cache[node] = frozenset()
+                stack.pop()
+                continue
+            pending = [op for op in node.ufl_operands if op not in cache]
+            if pending:
+                stack.extend(pending)
+                continue
+            bound = frozenset().union(*(cache[op] for op in node.ufl_operands))
+            if isinstance(node, IndexSum | ComponentTensor):
+                bound = bound | frozenset(node.ufl_operands[1].indices())
+            cache[node] = bound
+            stack.pop()
+        return cache[e]
 
     def indexed(self, o, o1, i1):
         """Simplify Indexed."""
         if isinstance(o1, ComponentTensor):
             # Simplify Indexed ComponentTensor
             o2, i2 = o1.ufl_operands
+            # Substituting i2 -> i1 inside o2 is only valid if no index
+            # involved is bound again inside o2 (e.g. the same Index object
+            # reused as a summation index): otherwise the replacement would
+            # be captured by the inner binding. Keep the ComponentTensor then.
+            bound = self._indices_bound_inside(o2)
+            if bound and any(i in bound for i in (*i2, *i1)):
+                if o.ufl_operands[0] is o1:
+                    return o
+                return o._ufl_expr_reconstruct_(o1, i1)
             # Replace outer indices
             rkey = (i2, i1)
             rule = self.rules.get(rkey)
